@@ -46,6 +46,16 @@ def block(stmts, name='block'):
                            body=list(stmts), decorator_list=[], lineno=getattr(stmts[0], 'lineno', 0), col_offset=0)
 
 
+def _const_truth(t_):
+    if isinstance(t_, tuple) and t_:
+        if t_[0] == 'const' and (isinstance(t_[1], bool) or t_[1] is None):
+            return bool(t_[1])
+        c = T.poly_const(t_)
+        if c is not None:
+            return c != 0
+    return None
+
+
 def _lit(c, tr):
     while isinstance(c, tuple) and c and c[0] == 'not':
         c, tr = c[1], not tr
@@ -69,12 +79,21 @@ def summary(fnode, name_map=None, call_alias=None, unroll=(0, 1, 2), ignore_call
         lits = []
         effects = []
         outcome = None
+        infeasible = False
         for e in p.events:
             if e[0] == 'cond':
                 tt = T.simp(b.t(e[1]))
                 truth = e[2]
                 while isinstance(tt, tuple) and tt and tt[0] == 'not':     # `if not c:` taken  ==  `if c:` not taken
                     tt, truth = tt[1], not truth
+                # a test on a known constant (flag variables: doshrink = 0 / 1 / False / True) is decided: the other branch is
+                # infeasible, and the literal carries no information
+                cv = _const_truth(tt)
+                if cv is not None:
+                    if cv != truth:
+                        infeasible = True
+                        break
+                    continue
                 lits.append(('T' if truth else 'F', tt))
             elif e[0] == 'iter':
                 loop = e[1]
@@ -132,6 +151,8 @@ def summary(fnode, name_map=None, call_alias=None, unroll=(0, 1, 2), ignore_call
                     effects.append(('assert', T.simp(b.t(st.test))))
                 else:
                     effects.append(('stmt', unparse(st)))
+        if infeasible:
+            continue
         if outcome is None:
             outcome = ('return', ('const', None)) if p.exit in ('fall', 'return') else (p.exit,)
         # a conditional expression in the returned value is a branch: `return a if c else b` == `if c: return a` / `return b`
